@@ -23,6 +23,13 @@ def content(i, size, salt):
     return (hashlib.shake_128(b"member-%d-%d" % (i, salt)).digest(min(size, 64)) * (size // 64 + 1))[:size] if size else b""
 
 
+def nested_tar(i):
+    """A small ordinary tar archive used as member *content* (a reader that keeps scanning past the end-of-archive
+    marker would list its members)."""
+    out = enc_vmtar.header(f"inner{i}.txt", 5) + b"hello".ljust(512, b"\0") + enc_vmtar.header(f"inner{i}b.txt", 0) + bytes(1024)
+    return out
+
+
 def concretise(ms, rng, variant):
     members = []
     for i, m in enumerate(ms):
@@ -35,8 +42,12 @@ def concretise(ms, rng, variant):
             name = ("d%d/" % i) + "n" * rng.choice([60, 90, 94]) + ("/" if m["dir"] else "")
             if not m["visor"]:
                 prefix = "p" * rng.choice([10, 100, 151, 152, 155])  # ustar prefix field (overlaps the visor offset field position)
+        data = content(i, size, variant.get("salt", 0))
+        if variant.get("nested") and not m["dir"] and not m["inline"]:
+            data = nested_tar(i)
+            size = len(data)
         members.append({"name": name, "visor": m["visor"], "dir": m["dir"], "size": size, "inline": m["inline"], "slot": m["slot"],
-                        "data": content(i, size, variant.get("salt", 0)), "prefix": prefix})
+                        "data": data, "prefix": prefix})
     return members
 
 
@@ -90,7 +101,37 @@ VARIANTS = [
     {"id": "odd-align", "align": 512, "gap": 1536, "big": True, "salt": 1},
     {"id": "byte-align", "align": 1, "gap": 7, "salt": 2},
     {"id": "longnames", "align": 4096, "longnames": True, "trailing": 5, "tail": 3000, "salt": 3},
+    {"id": "nested-tar-content", "align": 4096, "nested": True, "tail": 2048},
 ]
+
+
+def huge_offsets(ctx):
+    """Member data beyond 2 GiB (the offset field is an unsigned 32-bit byte offset): archive served from a virtual file."""
+    from dissect.hypervisor.util import vmtar
+    from harness.vfile import VirtualFile
+
+    for base in ((1 << 31) + 4096, (1 << 32) - 65536, (1 << 31) - 8192):
+        members = [{"name": "big/", "visor": True, "dir": True, "size": 0, "inline": True, "slot": 1, "data": b"", "prefix": ""},
+                   {"name": "big/a.bin", "visor": True, "dir": False, "size": 3000, "inline": False, "slot": 1, "data": content(1, 3000, 9), "prefix": ""},
+                   {"name": "big/b.bin", "visor": True, "dir": False, "size": 700, "inline": False, "slot": 2, "data": content(2, 700, 9), "prefix": ""}]
+        blob, offs = enc_vmtar.build(members, data_align=4096, data_gap=base)
+        # the builder materialises the gap; rebuild as a sparse virtual file instead
+        hdr_end = 512 * 5
+        ext = [(0, hdr_end, "bytes", blob[:hdr_end])]
+        for m in members:
+            if not m["inline"]:
+                ext.append((offs[id(m)], m["size"], "bytes", m["data"]))
+        vf = VirtualFile(max(e[0] + e[1] for e in ext), ext)
+        ctx.case(key=("huge", base), nontrivial=True, sample={"variant": "huge-offset", "data_offset": offs[id(members[1])]} if base > (1 << 31) else None)
+        try:
+            t = vmtar.open(fileobj=vf)
+            got = {g.name: (t.extractfile(g).read() if g.isfile() else None) for g in t.getmembers()}
+        except Exception as e:  # noqa: BLE001
+            ctx.violation({"variant": "huge-offset", "fail": "raised", "exc": type(e).__name__}, {"base": base, "error": repr(e)[:300]})
+            continue
+        want = {"big": None, "big/a.bin": members[1]["data"], "big/b.bin": members[2]["data"]}
+        if got != want:
+            ctx.violation({"variant": "huge-offset", "fail": "extract-mismatch"}, {"base": base, "got": {k: (len(v) if v else v) for k, v in got.items()}})
 
 
 def run(ctx):
@@ -123,6 +164,7 @@ def run(ctx):
 
     core.parallel(ctx, work, sts)
     sample_roundtrip(ctx)
+    huge_offsets(ctx)
 
 
 def sample_roundtrip(ctx):
